@@ -1,46 +1,367 @@
 /-
-  C17, third sentence ("a coercing schema then validates the coerced value exactly as the
-  non-coercing schema validates that value"), composed with what that validation is, for the
-  float and big-integer coercing schemas (the integer schemas: `C17.c17_schema_check_exact`).
+  C17, third sentence: "A coercing schema then validates the coerced value exactly as the non-coercing
+  schema validates that value."  (Round 4c, audit M5: rewritten over `Model/CoerceSchema.lean`.)
 
-  * `c17_schema_check_exact_float` — the bound check a coercing float32/float64 schema applies to
-    the coerced value is the mathematical comparison of the two floats (NaN unordered, ±0 equal,
-    infinities ordered): composition with C16's `c16_cmp`;
-  * `c17_schema_float_sound` — so a coercing float schema succeeds exactly when `To[T]` produced
-    the value and the mathematical comparison holds on it;
-  * BigInt schemas compare the coerced value with a `*big.Int` bound through float64
-    (`Coerce.bigCmpViaFloat`: `validate.Gt` on two `*big.Int` goes through `coerce.ToFloat64`).
-    That was the code before `fix: compare and divide big integers exactly`
-    (`legacy_bigint_check_witness`, `legacy_bigint_check_partial`); now `c17_bigint_check_exact`:
-    the check is the comparison of the integers.
-    The third sentence itself (`C17.c17_schema`, `C17.c17_schema_sound`: the coercing schema
-    does to the coerced value exactly what the plain schema does) holds for BigInt as for every
-    target.
+  The coercing schema is `CoerceSchema.parseValue` — the transcription of `parsePrimitiveValue` — and the
+  non-coercing schema is C01's `Prim.parse` (imported) with C16's checks; `driver_c17` executes BOTH
+  (`parseValue` and `plainOnCoerced`) on every `S` line, the harness observes both real schemas.
+
+  * `c17_schema_eq`          — an input that is not of the schema's type and not nil:
+                               `parseValue f g s ptr x = plainOnCoerced f g s x`, i.e. the coercing schema answers
+                               what the PLAIN schema (`Prim.parse` on `s.plain.internals`) answers on `coerce.To[T](x)`,
+                               and a failed coercion is the invalid-type error;
+  * `c17_schema_exact_first` — an input of the schema's type (value or pointer): the coercing schema IS the plain one;
+  * `parseValue_plain`       — without `Coerce` the transcription is C01's `Prim.parse` (so one definition serves both
+                               schemas the harness builds);
+  * `c17_schema_sound`       — success ⇔ `To[T]` produced exactly that value ∧ every check of the chain holds on it;
+  * `holds_exact`            — each check of the chain, on the coerced value, is its documented meaning
+                               (`specHolds`: the mathematical comparison, integer divisibility, byte length, prefix) —
+                               composition with C16 (`c16_cmp`, `multipleOfInts_exact`, `C16B.c16_big_cmp`,
+                               `C16B.c16_big_multiple`); for BigInt bounds this is no longer `rfl`: the check is
+                               `NumBig.xcmp` (the `cmpBig` transcription), the spec is `op.holdsInt`;
+  * `c17_schema_int_sound`   — a coercing integer schema returns exactly the integer the input denotes, in range,
+                               and every check's documented meaning holds of it;
+  * legacy BigInt comparison through float64 (`legacy_bigint_check_witness` / `_partial`).
 -/
 import Gozod.Proofs.C17
+import Gozod.Proofs.C16Big
+import Gozod.Model.CoerceSchema
 set_option exponentiation.threshold 2000
 namespace Gozod.C17S
-open Gozod Gozod.Coerce
+open Gozod Gozod.Coerce Gozod.CoerceSchema
 
-/-- **Float schemas: the check on the coerced value is the mathematical comparison.** -/
+/-! ## the check chain under C01's `executeChecks` -/
+
+def preds (cs : List CP) : List (Check CP Unit) := cs.map (fun p => Check.pred p false none)
+
+theorem hasOverwrite_preds (cs : List CP) : hasOverwrite (preds cs) = false := by
+  induction cs with
+  | nil => rfl
+  | cons c cs ih => simpa [preds, hasOverwrite] using ih
+
+/-- A chain of plain predicate checks never changes the value, and ends without an issue exactly
+    when it started without one and every predicate holds. -/
+theorem runFrom_preds (e : Env CP Unit Unit Val) (cs : List CP) (i : Nat) (v : Val) (iss : List Nat) (log : List (Ev Val)) :
+    (runFrom e i (preds cs) v iss log).val = v ∧
+    ((runFrom e i (preds cs) v iss log).issues = [] ↔ (iss = [] ∧ ∀ p ∈ cs, e.holds p v = true)) := by
+  induction cs generalizing i iss log with
+  | nil => simp [preds, runFrom]
+  | cons c cs ih =>
+    simp only [preds, List.map_cons, runFrom]
+    by_cases hc : e.holds c v = true
+    · rw [if_pos hc]
+      have := ih (i + 1) iss (log ++ [.check i v])
+      simp only [preds] at this
+      refine ⟨this.1, ?_⟩
+      rw [this.2]
+      simp [hc]
+    · rw [if_neg hc]
+      simp only [Bool.false_eq_true, ↓reduceIte]
+      have := ih (i + 1) (iss ++ [i]) (log ++ [.check i v])
+      simp only [preds] at this
+      refine ⟨this.1, ?_⟩
+      rw [this.2]
+      simp [hc]
+
+/-- `validateWithChecks` / `validatePointer` on a value of the schema's type: the value itself when every
+    check holds, the failing positions otherwise. -/
+theorem checked_iff (s : Schema) (ptrIn : Bool) (v w : Val) :
+    Prim.checked (env s.tgt) s.internals ptrIn v = .okVal w ↔ (w = v ∧ ∀ p ∈ s.checks, holds s.tgt p v = true) := by
+  have hov : hasOverwrite s.internals.checks = false := hasOverwrite_preds s.checks
+  have hr := runFrom_preds (env s.tgt) s.checks 0 v [] []
+  have hrun : runChecksOn (env s.tgt) s.internals.ptrSchema ptrIn s.internals.checks v = runChecks (env s.tgt) (preds s.checks) v := by
+    unfold runChecksOn
+    rw [hov]
+    simp [Schema.internals, preds]
+  unfold Prim.checked
+  rw [hrun]
+  unfold runChecks
+  by_cases hi : (runFrom (env s.tgt) 0 (preds s.checks) v [] []).issues = []
+  · rw [if_pos hi, hr.1]
+    have := hr.2.mp hi
+    constructor
+    · intro h; injection h with h; exact ⟨h.symm, this.2⟩
+    · intro h; rw [h.1]
+  · rw [if_neg hi]
+    constructor
+    · intro h; cases h
+    · intro h; exact absurd (hr.2.mpr ⟨rfl, h.2⟩) hi
+
+/-- The ptr flag of the input does not matter for a chain without overwrites. -/
+theorem checked_ptr (s : Schema) (v : Val) :
+    Prim.checked (env s.tgt) s.internals true v = Prim.checked (env s.tgt) s.internals false v := by
+  have hov : hasOverwrite s.internals.checks = false := hasOverwrite_preds s.checks
+  unfold Prim.checked runChecksOn
+  rw [hov]
+  simp
+
+theorem plain_internals (s : Schema) : s.plain.internals = s.internals := rfl
+theorem plain_tgt (s : Schema) : s.plain.tgt = s.tgt := rfl
+
+/-! ## the third sentence -/
+
+/-- **C17 (schemas).** For an input that does not already have the schema's type (and is not nil), the
+    coercing schema answers exactly what the NON-coercing schema answers on `coerce.To[T](input)`;
+    a failed coercion is the invalid-type error. -/
+theorem c17_schema_eq (f g : F → List Nat) (s : Schema) (ptr : Bool) (x : Src)
+    (hc : s.coerce = true) (hex : exact s.tgt x = none) (hn : x ≠ .nilptr) :
+    parseValue f g s ptr x = plainOnCoerced f g s x := by
+  unfold parseValue plainOnCoerced
+  rw [hex]
+  cases x with
+  | nilptr => exact absurd rfl hn
+  | _ => simp only [hc, ↓reduceIte, plain_internals, Prim.parse]
+
+/-- …spelled out: `plainOnCoerced` is `Prim.parse` (C01's `ParsePrimitive`) of the plain schema on the value. -/
+theorem plainOnCoerced_ok (f g : F → List Nat) (s : Schema) (x : Src) (v : Val) (h : to f g s.tgt x = .ok v) :
+    plainOnCoerced f g s x = Prim.parse (env s.tgt) s.plain.internals (.val v) := by
+  unfold plainOnCoerced; rw [h]
+
+theorem plainOnCoerced_err (f g : F → List Nat) (s : Schema) (x : Src) (e : CErr) (h : to f g s.tgt x = .error e) :
+    plainOnCoerced f g s x = .errType := by
+  unfold plainOnCoerced; rw [h]
+
+/-- **C17 (schemas, order).** Coercion is attempted only after the exact type match fails: on an input that
+    already has the schema's type (directly or behind a pointer) the coercing schema is the plain schema. -/
+theorem c17_schema_exact_first (f g : F → List Nat) (s : Schema) (ptr : Bool) (x : Src) (v : Val)
+    (h : exact s.tgt x = some v) : parseValue f g s ptr x = parsePlain s.plain ptr x := by
+  unfold parseValue parsePlain classify
+  rw [plain_tgt, h]
+  cases ptr <;> simp [Prim.parse, plain_internals]
+
+/-- Without `Coerce`, the transcription of `parsePrimitiveValue` is C01's `ParsePrimitive`. -/
+theorem parseValue_plain (f g : F → List Nat) (s : Schema) (ptr : Bool) (x : Src) (hc : s.coerce = false) :
+    parseValue f g s ptr x = parsePlain s ptr x := by
+  unfold parseValue parsePlain classify
+  cases hex : exact s.tgt x with
+  | some v => cases ptr <;> simp [Prim.parse]
+  | none =>
+    cases x <;> simp [hc, Prim.parse]
+
+/-- **C17 (schemas, every target, every check chain).** The coercing schema returns `w` for an input of another
+    type exactly when `coerce.To[T]` produced `w` — nothing is changed between coercion and validation —
+    and every check of the chain holds on `w`. -/
+theorem c17_schema_sound (f g : F → List Nat) (s : Schema) (ptr : Bool) (x : Src) (w : Val)
+    (hc : s.coerce = true) (hex : exact s.tgt x = none) (hn : x ≠ .nilptr) :
+    parseValue f g s ptr x = .okVal w ↔ (to f g s.tgt x = .ok w ∧ ∀ p ∈ s.checks, holds s.tgt p w = true) := by
+  rw [c17_schema_eq f g s ptr x hc hex hn]
+  unfold plainOnCoerced
+  cases hto : to f g s.tgt x with
+  | error e => simp
+  | ok v =>
+    simp only [Prim.parse, plain_internals]
+    rw [checked_iff s false v w]
+    constructor
+    · intro ⟨h1, h2⟩; subst h1; exact ⟨rfl, h2⟩
+    · intro ⟨h1, h2⟩; injection h1 with h1; subst h1; exact ⟨rfl, h2⟩
+
+/-- `validateWithChecks` answers the value itself or the failing check positions — nothing else. -/
+theorem checked_cases (s : Schema) (ptrIn : Bool) (v : Val) :
+    Prim.checked (env s.tgt) s.internals ptrIn v = .okVal v ∨
+      ∃ ps, ps ≠ [] ∧ Prim.checked (env s.tgt) s.internals ptrIn v = .errChecks ps := by
+  have hov : hasOverwrite s.internals.checks = false := hasOverwrite_preds s.checks
+  have hr := runFrom_preds (env s.tgt) s.checks 0 v [] []
+  have hrun : runChecksOn (env s.tgt) s.internals.ptrSchema ptrIn s.internals.checks v = runChecks (env s.tgt) (preds s.checks) v := by
+    unfold runChecksOn
+    rw [hov]
+    simp [Schema.internals, preds]
+  unfold Prim.checked
+  rw [hrun]
+  unfold runChecks
+  by_cases hi : (runFrom (env s.tgt) 0 (preds s.checks) v [] []).issues = []
+  · rw [if_pos hi, hr.1]; exact Or.inl rfl
+  · rw [if_neg hi]; exact Or.inr ⟨_, hi, rfl⟩
+
+/-- A coercing schema never answers nil / non-optional for such an input: a value, the check issues, or invalid type. -/
+theorem c17_schema_outcomes (f g : F → List Nat) (s : Schema) (ptr : Bool) (x : Src)
+    (hc : s.coerce = true) (hex : exact s.tgt x = none) (hn : x ≠ .nilptr) :
+    (∃ v, to f g s.tgt x = .ok v ∧ (parseValue f g s ptr x = .okVal v ∨ ∃ ps, ps ≠ [] ∧ parseValue f g s ptr x = .errChecks ps)) ∨
+    (∃ e, to f g s.tgt x = .error e ∧ parseValue f g s ptr x = .errType) := by
+  rw [c17_schema_eq f g s ptr x hc hex hn]
+  unfold plainOnCoerced
+  cases hto : to f g s.tgt x with
+  | error e => exact Or.inr ⟨e, rfl, rfl⟩
+  | ok v => exact Or.inl ⟨v, rfl, checked_cases s false v⟩
+
+/-! ## each check on the coerced value is its documented meaning (composition with C16) -/
+
+/-- The coerced value fits the schema's type (what `c17_integer_sound` guarantees for integer targets). -/
+def ValWf (t : Tgt) : Val → Prop
+  | .int n => (match t with
+    | .int ty => ty.inRange n
+    | _ => True)
+  | _ => True
+
+/-- The bound / divisor is what the schema method accepts: an `int64` (integer schemas), a `float64`. -/
+def CPWf : CP → Prop
+  | .cmp _ b => C16.Num.wf b
+  | .mul d => C16.Num.wf d
+  | _ => True
+
+theorem isPrefix_spec (p bs : List Nat) : isPrefix p bs = (decide (p.length ≤ bs.length) && bs.take p.length == p) := by
+  induction p generalizing bs with
+  | nil => simp [isPrefix]
+  | cons a p ih =>
+    cases bs with
+    | nil => simp [isPrefix]
+    | cons b bs =>
+      simp only [isPrefix, ih bs, List.length_cons, List.take_succ_cons]
+      by_cases hab : a = b
+      · subst hab; simp
+      · have : (a == b) = false := by simpa using hab
+        rw [this]
+        simp only [Bool.false_and]
+        symm
+        rw [Bool.and_eq_false_iff]
+        right
+        simp only [beq_eq_false_iff_ne, ne_eq, List.cons.injEq, not_and]
+        intro h; exact absurd h.symm hab
+
+theorem specCmp_ofInt (op : CmpOp) (ty : IntTy) (n : Int) (b : Num) :
+    specCmp op (Num.ofInt ty n) b = specCmp op (.i n) b := by
+  unfold specCmp; rw [C16.ofInt_toF]; rfl
+
+/-- **Every check of the chain, evaluated by the code's algorithm on the coerced value, is its documented
+    meaning** — whenever the documentation gives one (`specHolds = some r`; the float ε-rule of MultipleOf has
+    none and is C16F's). -/
+theorem holds_exact (t : Tgt) (p : CP) (v : Val) (r : Bool) (hv : ValWf t v) (hp : CPWf p)
+    (hs : specHolds t p v = some r) : holds t p v = r := by
+  cases p with
+  | cmp op b =>
+    cases v with
+    | int n =>
+      cases t with
+      | int ty =>
+        simp only [specHolds, Option.some.injEq] at hs; subst hs
+        simp only [holds, operand]
+        rw [C16.c16_cmp op _ b (C16.ofInt_wf ty n hv) hp, specCmp_ofInt]
+      | _ => simp_all [specHolds, holds, operand]
+    | flt x =>
+      cases t with
+      | f32 => simp only [specHolds, Option.some.injEq] at hs; subst hs
+               simp only [holds, operand]; exact C16.c16_cmp op _ b trivial hp
+      | f64 => simp only [specHolds, Option.some.injEq] at hs; subst hs
+               simp only [holds, operand]; exact C16.c16_cmp op _ b trivial hp
+      | _ => simp_all [specHolds, holds, operand]
+    | _ => simp_all [specHolds, holds, operand]
+  | mul d =>
+    cases v with
+    | int n =>
+      cases t with
+      | int ty =>
+        have hmul : ∀ dd : Num, C16.isInt dd = true → NumFloat.multipleOfNum (Num.ofInt ty n) dd = multipleOfInts (Num.ofInt ty n) dd := by
+          intro dd hdd
+          cases dd with
+          | f _ => simp [C16.isInt] at hdd
+          | i _ => unfold Num.ofInt; split <;> rfl
+          | u _ => unfold Num.ofInt; split <;> rfl
+        cases d with
+        | i dv =>
+          simp only [specHolds, Option.some.injEq] at hs; subst hs
+          simp only [holds, operand]
+          rw [hmul _ rfl, C16.multipleOfInts_exact _ _ (C16.ofInt_wf ty n hv) (show C16.Num.wf (.i dv) from hp) (C16.ofInt_isInt ty n) rfl, C16.ofInt_ival]
+          rfl
+        | u dv =>
+          simp only [specHolds, Option.some.injEq] at hs; subst hs
+          simp only [holds, operand]
+          rw [hmul _ rfl, C16.multipleOfInts_exact _ _ (C16.ofInt_wf ty n hv) (show C16.Num.wf (.u dv) from hp) (C16.ofInt_isInt ty n) rfl, C16.ofInt_ival]
+          rfl
+        | f _ => simp [specHolds] at hs
+      | _ => simp_all [specHolds, holds, operand]
+    | flt x => cases t <;> simp_all [specHolds, holds, operand]
+    | _ => simp_all [specHolds, holds, operand]
+  | cmpBig op b =>
+    cases v with
+    | int n =>
+      cases t with
+      | big =>
+        simp only [specHolds, Option.some.injEq] at hs; subst hs
+        simp only [holds]
+        exact C16B.c16_big_cmp op (.big n) (.big b) n b rfl rfl trivial trivial
+      | _ => simp_all [specHolds, holds]
+    | _ => simp_all [specHolds, holds]
+  | mulBig d =>
+    cases v with
+    | int n =>
+      cases t with
+      | big =>
+        simp only [specHolds, Option.some.injEq] at hs; subst hs
+        simp only [holds]
+        exact C16B.c16_big_multiple (.big n) (.big d) n d rfl rfl trivial trivial
+      | _ => simp_all [specHolds, holds]
+    | _ => simp_all [specHolds, holds]
+  | minLen k => cases v <;> simp_all [specHolds, holds]
+  | maxLen k => cases v <;> simp_all [specHolds, holds]
+  | hasPrefix q =>
+    cases v with
+    | str bs => simp only [specHolds, Option.some.injEq] at hs; subst hs; simp only [holds]; exact isPrefix_spec q bs
+    | _ => simp_all [specHolds, holds]
+  | refine => simp only [specHolds, Option.some.injEq] at hs; subst hs; rfl
+
+/-- The BigInt bound: the code's `cmpBig` path against the comparison of the integers (was `rfl` by
+    definition before round 4c). -/
+theorem c17_bigint_check_exact (op : CmpOp) (v b : Int) :
+    holds .big (.cmpBig op b) (.int v) = op.holdsInt v b :=
+  holds_exact .big (.cmpBig op b) (.int v) _ trivial trivial rfl
+
+theorem c17_schema_check_exact (ty : IntTy) (op : CmpOp) (b n : Int) (hn : ty.inRange n) (hb : IntTy.i64.inRange b) :
+    holds (.int ty) (.cmp op (.i b)) (.int n) = op.holdsInt n b := by
+  rw [holds_exact (.int ty) (.cmp op (.i b)) (.int n) _ hn hb rfl]
+  rw [← specCmp_ofInt op ty n (.i b)]
+  exact C16M_specCmp_int op ty n b hn hb
+where
+  C16M_specCmp_int (op : CmpOp) (t : IntTy) (v b : Int) (hv : t.inRange v) (hb : IntTy.i64.inRange b) :
+      specCmp op (Num.ofInt t v) (.i b) = op.holdsInt v b := by
+    rw [← C16.c16_cmp op _ _ (C16.ofInt_wf t v hv) (show C16.Num.wf (.i b) from hb)]
+    exact C16.c16_int_cmp op t .i64 v b hv hb
+
 theorem c17_schema_check_exact_float (t : Tgt) (ht : t = .f32 ∨ t = .f64) (op : CmpOp) (x b : F) :
-    (Chk.cmp op (.f b)).holds t (.flt x) = specCmp op (.f x) (.f b) := by
-  rcases ht with rfl | rfl <;>
-    (simp only [Chk.holds, Val.num]; exact C16.c16_cmp op (.f x) (.f b) trivial trivial)
+    holds t (.cmp op (.f b)) (.flt x) = specCmp op (.f x) (.f b) := by
+  rcases ht with rfl | rfl <;> exact holds_exact _ (.cmp op (.f b)) (.flt x) _ trivial trivial rfl
 
-/-- A coercing float schema returns `w` exactly when `To[T]` produced `w` and the mathematical
-    comparison with the bound holds on it. -/
-theorem c17_schema_float_sound (f g : F → List Nat) (t : Tgt) (ht : t = .f32 ∨ t = .f64) (op : CmpOp) (b : F)
-    (s : Src) (x : F) (hex : exact t s = none) :
-    parseCoerced f g t (.cmp op (.f b)) s = .ok (.flt x) ↔
-      (to f g t s = .ok (.flt x) ∧ specCmp op (.f x) (.f b) = true) := by
-  rw [C17.c17_schema_sound f g t _ s _ hex, c17_schema_check_exact_float t ht]
+/-- **Coercing integer schemas, end to end**: what such a schema returns for an input of another type is exactly
+    the integer the input denotes, within the type's range, and every check of the chain that has a documented
+    meaning holds of it in that meaning. -/
+theorem c17_schema_int_sound (sem : C17.StrSem) (f g : F → List Nat) (s : Schema) (ty : IntTy) (ptr : Bool) (x : Src)
+    (w : Val) (ht : s.tgt = .int ty) (hc : s.coerce = true) (hwf : C17.wf x) (hex : exact s.tgt x = none) (hn : x ≠ .nilptr)
+    (hcp : ∀ p ∈ s.checks, CPWf p) (h : parseValue f g s ptr x = .okVal w) :
+    ∃ n, w = .int n ∧ C17.denotesInt sem x n ∧ ty.inRange n ∧
+      ∀ p ∈ s.checks, ∀ r, specHolds s.tgt p (.int n) = some r → r = true := by
+  have ⟨hto, hall⟩ := (c17_schema_sound f g s ptr x w hc hex hn).mp h
+  rw [ht, C17.to_int] at hto
+  cases hi : toInteger ty x with
+  | error e => rw [hi] at hto; cases hto
+  | ok n =>
+    rw [hi] at hto
+    have ⟨hd, hr⟩ := C17.c17_integer_sound sem ty x n hwf hi
+    simp only [Functor.map, Except.map] at hto
+    injection hto with hto; subst hto
+    refine ⟨n, rfl, hd, hr, ?_⟩
+    intro p hp r hs
+    have hv : ValWf s.tgt (.int n) := by rw [ht]; exact hr
+    rw [← holds_exact s.tgt p (.int n) r hv (hcp p hp) hs]
+    exact hall p hp
 
-example : parseCoerced (fun _ => []) (fun _ => []) .f64 (.cmp .gt (.f (.fin 1 1))) (.int .i8 1) = .ok (.flt (.fin 1 0)) ∧
-    parseCoerced (fun _ => []) (fun _ => []) .f64 (.cmp .lt (.f .nan)) (.int .i8 1) = .error .check := by
+/-! ## instances: the hypotheses are inhabited, the chain matters -/
+
+def seven : StrInfo := StrInfo.ofText [0x20, 0x37] "7" (some (.fin 7 0)) (some (.fin 7 0))
+
+example :
+    let s : Schema := { tgt := .int .i8, checks := [.cmp .gte (.i 5), .mul (.i 7), .refine], coerce := true }
+    exact s.tgt (.str seven) = none ∧
+    parseValue (fun _ => []) (fun _ => []) s false (.str seven) = .errChecks [2] ∧        -- 7 is odd: the refinement fails
+    parseValue (fun _ => []) (fun _ => []) { s with checks := [.cmp .gte (.i 5), .mul (.i 7)] } false (.str seven) = .okVal (.int 7) ∧
+    parseValue (fun _ => []) (fun _ => []) s.plain false (.str seven) = .errType ∧
+    plainOnCoerced (fun _ => []) (fun _ => []) s (.str seven) = .errChecks [2] := by
+  refine ⟨rfl, ?_, ?_, ?_, ?_⟩ <;> decide
+
+example : parseValue (fun _ => []) (fun _ => []) { tgt := .f64, checks := [.cmp .gt (.f (.fin 1 1))], coerce := true } false (.int .i8 1) = .okVal (.flt (.fin 1 0)) ∧
+    parseValue (fun _ => []) (fun _ => []) { tgt := .f64, checks := [.cmp .lt (.f .nan)], coerce := true } false (.int .i8 1) = .errChecks [0] ∧
+    holds .big (.cmpBig .gt (2 ^ 53)) (.int (2 ^ 53 + 1)) = true ∧
+    holds (.int .i8) (.minLen 0) (.int 3) = false := by
   decide
 
-/-! ## BigInt schemas -/
+/-! ## BigInt bounds before /repo 4945548 (kept as witness) -/
 
 theorem log2_lt_53 (n : Nat) (hn : n ≠ 0) (h : n < 2 ^ 53) : n.log2 < 53 := (Nat.log2_lt hn).mpr h
 
@@ -63,27 +384,17 @@ theorem bigToF64_exact (v : Int) (h : v.natAbs < 2 ^ 53) : bigToF64 v = .fin v 0
     · rw [if_pos hneg]; congr 1; omega
     · rw [if_neg hneg]; congr 1; omega
 
-/-- **BigInt schemas: the check on the coerced value is the comparison of the integers**
-    (full statement, since `fix: compare and divide big integers exactly`). -/
-theorem c17_bigint_check_exact (op : CmpOp) (v b : Int) :
-    (Chk.cmpBig op b).holds .big (.int v) = op.holdsInt v b := rfl
-
 /-- The code before that fix compared through float64: exact below 2^53 … -/
 theorem legacy_bigint_check_partial (op : CmpOp) (v b : Int) (hv : v.natAbs < 2 ^ 53) (hb : b.natAbs < 2 ^ 53) :
     bigCmpViaFloat op v b = op.holdsInt v b := by
   unfold bigCmpViaFloat
   rw [bigToF64_exact v hv, bigToF64_exact b hb]
   simp only [finOrOverflow, F.cmp, Int.pow_zero, Int.mul_one]
-  rcases Int.lt_trichotomy v b with h | h | h
-  · rw [Int.compare_eq_lt.mpr h]; cases op <;> simp [CmpOp.ofOrdering, CmpOp.holdsInt] <;> omega
-  · subst h; rw [Int.compare_eq_eq.mpr rfl]; cases op <;> simp [CmpOp.ofOrdering, CmpOp.holdsInt]
-  · rw [Int.compare_eq_gt.mpr h]; cases op <;> simp [CmpOp.ofOrdering, CmpOp.holdsInt] <;> omega
+  exact C16.ofOrdering_compare op v b
 
 /-- … and wrong above: `BigInt().Gt(2^53).Parse(2^53+1)` was refused, `BigInt().Gt(0).Parse(2^1024)` too. -/
 theorem legacy_bigint_check_witness :
     bigCmpViaFloat .gt (2 ^ 53 + 1) (2 ^ 53) = false ∧ bigCmpViaFloat .gt (2 ^ 1024) 0 = false := by
   decide +kernel
-
-example : (Chk.cmpBig .gt (2 ^ 53)).holds .big (.int (2 ^ 53 + 1)) = true := by decide
 
 end Gozod.C17S
